@@ -15,6 +15,9 @@
  *                         call has returned; thread B creates two library-managed instances and assembles into them; A is
  *                         released and finishes; B keeps using its instances (one of them grows) and destroys them; both are
  *                         compared with the same jobs run alone afterwards.
+ *   thrdrv os2 <ka> <kb> <dir>  two-point schedule over the OS calls of the file entry points (open/fstat/read/close wrapped too):
+ *                         A (directory path, file, missing path) held after its ka-th call, then B (its own file, twice) held after
+ *                         its kb-th call, then A finishes, then B finishes; both compared with running alone.
  *   thrdrv debug <n> <r>  n threads, each with the debug listing switched on (asm_set_debug) together with chunk fitting
  *                         on private instances; the listings go to /dev/null, results are compared with the single-threaded run.
  * Output: "threads=N rounds=R steps=S mismatches=M" and, for the first mismatches, one line each.
@@ -281,7 +284,108 @@ static int main_debug(int n, int rounds) {
   return mism ? 1 : 0;
 }
 
+/* ---- two-point schedules over the OS calls of the FILE entry points (also wraps open / fstat / read / close):
+   A (assembles a directory path - which fails -, a file, a missing path) is held after its ka-th OS call; B (assembles its own file
+   twice) then runs until it is held after its kb-th OS call; A is released and finishes; B is released and finishes ---- */
+#include <sys/stat.h>
+static pthread_t thread_b;
+static volatile int b_hold_at = -1, b_held = 0, release_b = 0;
+static int b_calls = 0;
+static void os_point2(void) {
+  os_point();
+  if (b_hold_at < 0 || !pthread_equal(pthread_self(), thread_b)) return;
+  b_calls++;
+  if (b_calls == b_hold_at) {
+    __atomic_store_n(&b_held, 1, __ATOMIC_SEQ_CST);
+    while (!__atomic_load_n(&release_b, __ATOMIC_SEQ_CST)) sched_yield();
+  }
+}
+int __real_open(const char *, int, ...);
+int __wrap_open(const char *p, int fl, ...) {
+  mode_t m = 0;
+  if (fl & O_CREAT) { va_list ap; va_start(ap, fl); m = va_arg(ap, mode_t); va_end(ap); }
+  int r = __real_open(p, fl, m); os_point2(); return r;
+}
+int __real_close(int);
+int __wrap_close(int fd) { int r = __real_close(fd); os_point2(); return r; }
+ssize_t __real_read(int, void *, size_t);
+ssize_t __wrap_read(int fd, void *b, size_t n) { ssize_t r = __real_read(fd, b, n); os_point2(); return r; }
+int __real_fstat(int, struct stat *);
+int __wrap_fstat(int fd, struct stat *st) { int r = __real_fstat(fd, st); os_point2(); return r; }
+
+static char f_dir[600], f_a[600], f_b[600], f_missing[600];
+static void file_job_a(struct job *j) {
+  j->nsteps = 0;
+  uint8_t buf[256];
+  memset(buf, 0xcc, sizeof buf);
+  assemblyline_t al = asm_create_instance(buf, sizeof buf);
+  if (!al) { j->r[j->nsteps++] = (struct rec){-9, 0, 0, 0}; return; }
+  int rc = asm_assemble_file(al, f_dir); REC(j, al, rc);
+  rc = asm_assemble_file(al, f_a); REC(j, al, rc);
+  rc = asm_assemble_file(al, f_missing); REC(j, al, rc);
+  rc = asm_assemble_file(al, f_a); REC(j, al, rc);
+  asm_destroy_instance(al);
+}
+static void file_job_b(struct job *j) {
+  j->nsteps = 0;
+  uint8_t buf[256];
+  memset(buf, 0xcc, sizeof buf);
+  assemblyline_t al = asm_create_instance(buf, sizeof buf);
+  if (!al) { j->r[j->nsteps++] = (struct rec){-9, 0, 0, 0}; return; }
+  int cnt = -1;
+  int rc = asm_assemble_file(al, f_b); REC(j, al, rc);
+  rc = asm_assemble_file_counting_chunks(al, f_b, 8, &cnt); REC(j, al, rc);
+  j->r[j->nsteps - 1].cnt = cnt;
+  asm_destroy_instance(al);
+}
+static void *os2_a(void *p) { file_job_a((struct job *)p); return NULL; }
+static void *os2_b(void *p) { file_job_b((struct job *)p); return NULL; }
+static void put_file(const char *path, const char *text) { FILE *f = fopen(path, "wb"); if (f) { fputs(text, f); fclose(f); } }
+
+static int main_os2(int ka, int kb, const char *dir) {
+  struct job *ja = calloc(1, sizeof *ja), *jb = calloc(1, sizeof *jb), *ra = calloc(1, sizeof *ra), *rb = calloc(1, sizeof *rb);
+  snprintf(f_dir, sizeof f_dir, "%s/os2_%d_dir", dir, (int)getpid());
+  snprintf(f_a, sizeof f_a, "%s/os2_%d_a.asm", dir, (int)getpid());
+  snprintf(f_b, sizeof f_b, "%s/os2_%d_b.asm", dir, (int)getpid());
+  snprintf(f_missing, sizeof f_missing, "%s/os2_%d_missing.asm", dir, (int)getpid());
+  mkdir(f_dir, 0700);
+  put_file(f_a, "mov rax, 0x1122334455667788\nadd rax, rcx\nret\n");
+  put_file(f_b, "push r12\nmov rcx, 0x5\nvaddpd ymm1, ymm2, [rax+r9*8+16]\npop r12\nret\n");
+  assemblyline_t w = asm_create_instance(NULL, 0);
+  if (w) asm_destroy_instance(w);
+  struct timespec ts = {0, 1000000};
+  os_hold_at = ka;
+  pthread_create(&thread_a, NULL, os2_a, ja);
+  int waited = 0, a_joined = 0;
+  while (!__atomic_load_n(&a_held, __ATOMIC_SEQ_CST) && waited < 2000) {
+    if (pthread_tryjoin_np(thread_a, NULL) == 0) { a_joined = 1; break; }
+    nanosleep(&ts, NULL); waited++;
+  }
+  int helda = __atomic_load_n(&a_held, __ATOMIC_SEQ_CST);
+  b_hold_at = kb;
+  pthread_create(&thread_b, NULL, os2_b, jb);
+  int b_joined = 0;
+  waited = 0;
+  while (!__atomic_load_n(&b_held, __ATOMIC_SEQ_CST) && waited < 2000) {
+    if (pthread_tryjoin_np(thread_b, NULL) == 0) { b_joined = 1; break; }
+    nanosleep(&ts, NULL); waited++;
+  }
+  int heldb = __atomic_load_n(&b_held, __ATOMIC_SEQ_CST);
+  __atomic_store_n(&release_a, 1, __ATOMIC_SEQ_CST);
+  if (!a_joined) pthread_join(thread_a, NULL);
+  __atomic_store_n(&release_b, 1, __ATOMIC_SEQ_CST);
+  if (!b_joined) pthread_join(thread_b, NULL);
+  os_hold_at = -1; b_hold_at = -1;
+  file_job_a(ra);
+  file_job_b(rb);
+  int mism = compare("thread B (held between two of its OS calls while A finished)", jb, rb) + compare("thread A", ja, ra);
+  unlink(f_a); unlink(f_b); rmdir(f_dir);
+  printf("os2 ka=%d kb=%d held_a=%d held_b=%d steps=%d mismatches=%d\n", ka, kb, helda, heldb, ra->nsteps + rb->nsteps, mism);
+  return mism ? 1 : 0;
+}
+
 int main(int argc, char **argv) {
+  if (argc > 4 && !strcmp(argv[1], "os2")) return main_os2(atoi(argv[2]), atoi(argv[3]), argv[4]);
   if (argc > 3 && !strcmp(argv[1], "debug")) return main_debug(atoi(argv[2]), atoi(argv[3]));
   if (argc > 2 && !strcmp(argv[1], "sched")) return main_sched(atoi(argv[2]));
   if (argc > 2 && !strcmp(argv[1], "os")) return main_os(atoi(argv[2]));
